@@ -1,6 +1,7 @@
 package main
 
 import (
+	"go/types"
 	"os"
 	"strings"
 
@@ -20,11 +21,13 @@ func main() {
 				for _, recv := range []interface{}{t.Type()} {
 					_ = recv
 				}
-				ms := prog.MethodSets.MethodSet(t.Type())
-				for i := 0; i < ms.Len(); i++ {
-					f := prog.MethodValue(ms.At(i))
-					if f != nil && strings.Contains(f.String(), os.Args[2]) {
-						f.WriteTo(os.Stdout)
+				for _, rt := range []types.Type{t.Type(), types.NewPointer(t.Type())} {
+					ms := prog.MethodSets.MethodSet(rt)
+					for i := 0; i < ms.Len(); i++ {
+						f := prog.MethodValue(ms.At(i))
+						if f != nil && strings.Contains(f.String(), os.Args[2]) {
+							f.WriteTo(os.Stdout)
+						}
 					}
 				}
 			}
